@@ -23,6 +23,7 @@ Section P.
   Proof.
     intros Hh Hw. unfold commit_c. destruct (table_eqb U h s); [exact Hw|].
     destruct (merge_tables U s h w) as [m c]. destruct c; [exact Hh|].
+    destruct (uscan U U h m (entries_of U h)); [exact Hh|].
     destruct (valid U m) eqn:Hm; cbn [fst]; assumption.
   Qed.
 
@@ -32,6 +33,7 @@ Section P.
   Proof.
     unfold commit_c. destruct (table_eqb U h s); cbn [fst snd]; [congruence|].
     destruct (merge_tables U s h w) as [m c]. destruct c; [reflexivity|].
+    destruct (uscan U U h m (entries_of U h)); [reflexivity|].
     destruct (valid U m); cbn [fst snd]; [congruence | reflexivity].
   Qed.
 
